@@ -587,8 +587,19 @@ pub fn run_testers(a: &Args, shared: &SharedReport, which: &str) {
         r.bounds = if th {
             json!({"threads_ops": "2 threads <=4 operations (all three specs) + 3 threads <=3 operations (all three specs) + 3 threads <=4 operations (register, write-once register) + 2 threads <=5 operations (register)", "illformed": "from every prefix of <=4 events, continuations of length <=2", "clone_test": "prefixes of <=4 events x every next event"})
         } else {
-            json!({"threads_ops": "2 threads <=4 operations (register, write-once register; vec <=3) + 3 threads <=3 operations (all three specs)", "illformed": "from every prefix of <=3 events, continuations of length <=2", "clone_test": "prefixes of <=3 events x every next event"})
+            json!({"threads_ops": "2 threads <=4 operations (register, write-once register; vec <=3) + 3 threads <=3 operations (all three specs) + 3 threads <=4 operations (register)", "illformed": "from every prefix of <=3 events, continuations of length <=2", "clone_test": "prefixes of <=3 events x every next event"})
         };
+    }
+    if let Ok(c) = std::env::var("VERIF_E5_CASE") {
+        // experiment switch: "threads,ops,spec"
+        let p: Vec<&str> = c.split(',').collect();
+        let b = Bounds { threads: p[0].parse().unwrap(), max_ops: p[1].parse().unwrap(), illformed_depth: 0, clone_depth: 0 };
+        match p[2] {
+            "register" => run_spec(register_def(), &b, which, a, shared),
+            "woregister" => run_spec(woregister_def(), &b, which, a, shared),
+            _ => run_spec(vec_def(), &b, which, a, shared),
+        }
+        return;
     }
     if th {
         let b = Bounds { threads: 2, max_ops: 4, illformed_depth: 4, clone_depth: 4 };
@@ -613,6 +624,10 @@ pub fn run_testers(a: &Args, shared: &SharedReport, which: &str) {
         run_spec(register_def(), &b3, which, a, shared);
         run_spec(woregister_def(), &b3, which, a, shared);
         run_spec(vec_def(), &b3, which, a, shared);
+        // three threads with four operations (one pending next to three completed ones on other threads is the
+        // smallest shape in which a pending operation has to be placed before an applicable completed one)
+        let b4 = Bounds { threads: 3, max_ops: 4, illformed_depth: 0, clone_depth: 0 };
+        run_spec(register_def(), &b4, which, a, shared);
     }
 }
 
